@@ -451,8 +451,10 @@ struct RateLimiter {
 impl RateLimiter {
     fn new(rate: u8) -> Self {
         Self {
-            // between 3.9 and 1000 milliseconds; whole milliseconds would let most rates run fast
-            interval: 1_000_000_000 / (rate as u32),
+            // between 3.9 and 1000 milliseconds; whole milliseconds would let most rates run fast.
+            // Rounded up: a truncated interval would still let the rates that do not divide a
+            // second run (slightly) faster than configured.
+            interval: (1_000_000_000 + rate as u32 - 1) / (rate as u32),
             capacity: MAX_BURST,
             prev: Instant::now(),
         }
